@@ -40,6 +40,9 @@ def run(ctx):
         "one Next caller at a time in the sampled traces (the model allows several)",
     ]
     broken = []
+    ok, log = ctx.extract("group", ["lean/KafkaVerif/Gen/GroupFacts.lean"])
+    if not ok:
+        broken.append({"kind": "obligation", "name": "translator go/extract group", "detail": log[-1500:]})
     res = ctx.prove(MODULE)
     if not res["ok"]:
         broken.append({"kind": "obligation", "theorems": res["failed"], "detail": res["reasons"][:10]})
